@@ -128,11 +128,21 @@ def blocks_only_via_edges(body, edges):
 
 
 # ------------------------------------------------------------------ mode split on a boolean flag
+def both_reach_return(body, bi):
+    """a switch is a behavioural branch (not an assertion) iff every successor can reach a return"""
+    rets = set(body.return_blocks())
+    for s in body.succs(bi):
+        if not (body.reachable(s) & rets):
+            return False
+    return True
+
+
 def flag_regions(body, adt, field):
-    """(true_only_blocks, false_only_blocks) of a boolean field test"""
+    """(true_only_blocks, false_only_blocks) of a boolean field test; assertion-style tests
+    (one arm panics) are not mode branches and are ignored"""
     pred = is_field_read(adt, field)
-    t_edges = guard_edges(body, pred, True)
-    f_edges = guard_edges(body, pred, False)
+    t_edges = [e for e in guard_edges(body, pred, True) if both_reach_return(body, e[0])]
+    f_edges = [e for e in guard_edges(body, pred, False) if both_reach_return(body, e[0])]
     t_only = blocks_only_via_edges(body, t_edges) if t_edges else set()
     f_only = blocks_only_via_edges(body, f_edges) if f_edges else set()
     return t_only, f_only
